@@ -6,10 +6,10 @@ import (
 	"verifh/hx"
 )
 
-func vint(z int64) hx.T  { return hx.C("VInt", z) }
-func vnum(z int64) hx.T  { return hx.C("VNum", z) }
-func vstr(t int64) hx.T  { return hx.C("VStr", t) }
-func vbool(b bool) hx.T  { return hx.C("VBool", b) }
+func vint(z int64) hx.T   { return hx.C("VInt", z) }
+func vnum(z int64) hx.T   { return hx.C("VNum", z) }
+func vstr(t int64) hx.T   { return hx.C("VStr", t) }
+func vbool(b bool) hx.T   { return hx.C("VBool", b) }
 func vlist(l ...any) hx.T { return hx.C("VList", l) }
 
 func fixedCases() [][]hx.T {
@@ -57,6 +57,29 @@ func fixedCases() [][]hx.T {
 			c("OBackSet", 1, 4, vstr(5)), c("OBackSet", 1, 5, vstr(6)), c("OBackPush", 1), c("OFrontDump", 1)},
 		{c("OConnect", 1), c("OFrontSet", 1, 0, vstr(7)), c("OForwardKeep", 1, 1), c("OBackNew", 2, 1), c("OBackSet", 2, 0, vstr(8)), c("OBackPush", 2),
 			c("OBackSet", 1, 0, vstr(7)), c("OBackPush", 1), c("OFrontGet", 1, 0), c("OForwardKeep", 1, 3)},
+		// handlers reached by a forwarded NOTIFICATION keep their session and use it: set / push / query /
+		// kick must reach the notifying connection exactly as from a request
+		{c("OConnect", 1), c("OConnect", 2), c("OFrontSet", 2, 0, vstr(6)), c("OForwardKeepN", 1, 1), c("OForwardKeepN", 2, 2), c("OBackGet", 1, 0), c("OBackGet", 2, 0),
+			c("OBackDump", 2), c("OBackSet", 1, 0, vstr(7)), c("OBackSet", 1, 4, vint(1)), c("OBackPush", 1), c("OBackQuery", 2), c("OBackDump", 2), c("OFrontDump", 1), c("OFrontDump", 2),
+			c("OBackScript", 2, []any{c("ASet", 3, vstr(2)), "APush", "AQuery", c("ASet", 5, vint(2)), "APush"}), c("OForward", 2),
+			c("OBackScript", 1, []any{"AKick", c("ASet", 0, vstr(5)), "APush", "AQuery"}), c("OBackDump", 1), c("OFrontDump", 1), c("OFrontDump", 2)},
+		{c("OConnect", 1), c("OForwardKeepN", 1, 2), c("OBackQuery", 2), c("OBackGet", 2, 1), c("OBackGet", 2, 2), c("OForwardKeepN", 1, 2), c("OForwardKeepN", 3, 3), c("ORemove", 1),
+			c("OForwardKeepN", 1, 4), c("OBackSet", 2, 4, vint(1)), c("OBackPush", 2), c("OBackQuery", 2)},
+		// two front-ends whose connection ids coincide (1 / 101 and 2 / 102 are the same id on gate-1 / gate-2)
+		{c("OConnect", 1), c("OConnect", 101), c("OFrontDump", 1), c("OFrontDump", 101), c("OFrontSet", 101, 3, vstr(1)), c("OForward", 1), c("OForward", 101),
+			c("OForwardKeep", 101, 1), c("OForwardKeepN", 1, 2), c("OBackNew", 3, 101), c("OBackNew", 4, 1),
+			c("OBackSet", 1, 4, vint(1)), c("OBackPush", 1), c("OBackSet", 2, 4, vint(2)), c("OBackPush", 2), c("OBackQuery", 3), c("OBackQuery", 4), c("OBackDump", 3), c("OBackDump", 4),
+			c("OFrontDump", 1), c("OFrontDump", 101), c("OBackScript", 2, []any{"AKick", c("ASet", 5, vint(3)), "APush"}), c("OFrontDump", 1), c("OFrontDump", 101),
+			c("OBackScript", 3, []any{c("ASet", 6, vint(4)), "APush", "AQuery"}), c("OBackDump", 3), c("OFrontDump", 101)},
+		{c("OConnect", 101), c("OConnect", 102), c("OConnect", 2), c("OForwardKeepN", 102, 1), c("OForwardKeepN", 2, 2), c("OBackScript", 1, []any{c("ASet", 0, vstr(7)), "APush", "AQuery"}),
+			c("OBackDump", 1), c("OFrontDump", 2), c("OFrontDump", 102), c("ORemove", 2), c("OBackPush", 2), c("OBackQuery", 2), c("OBackSet", 1, 4, vint(1)), c("OBackPush", 1), c("OFrontDump", 102),
+			c("ORemove", 102), c("OFrontDump", 101)},
+		// a push merges its own keys only: what was written on the front-end (or pushed by somebody else)
+		// between two pushes stays, whoever pushes next and whatever keys
+		{c("OConnect", 1), c("OBackNew", 1, 1), c("OBackSet", 1, 4, vint(1)), c("OBackPush", 1), c("OFrontSet", 1, 4, vint(2)), c("OBackNew", 2, 1), c("OBackSet", 2, 5, vint(3)), c("OBackPush", 2),
+			c("OFrontDump", 1), c("OFrontSet", 1, 5, vint(4)), c("OForwardKeepN", 1, 3), c("OBackSet", 3, 6, vint(1)), c("OBackPush", 3), c("OFrontDump", 1), c("OBackQuery", 1), c("OBackDump", 1)},
+		{c("OConnect", 1), c("OConnect", 2), c("OBackNew", 1, 1), c("OBackNew", 2, 2), c("OBackScript", 1, []any{c("ASet", 3, vstr(1)), c("ASet", 0, vstr(7)), "APush"}), c("OFrontSet", 1, 3, vstr(2)), c("OFrontSet", 1, 0, vstr(8)),
+			c("OBackSet", 2, 4, vint(1)), c("OBackPush", 2), c("OForward", 1), c("OForwardKeep", 1, 3), c("OBackScript", 3, []any{c("ASet", 5, vint(1)), "APush", "AQuery"}), c("OForward", 1), c("OBackDump", 3)},
 		// value shapes
 		{c("OConnect", 1), c("OFrontSet", 1, 4, vint(9007199254740991)), c("OFrontSet", 1, 5, vlist(vint(1), vstr(5), vlist(vbool(true), "VNull"))),
 			c("OFrontSet", 1, 6, "VNull"), c("OFrontGet", 1, 4), c("OFrontGet", 1, 5), c("OFrontDump", 1), c("OBackNew", 1, 1), c("OBackQuery", 1),
@@ -69,6 +92,15 @@ func gen(cfg *hx.Config, i int) ([]hx.T, []string) {
 	tags := map[string]bool{}
 	nsid := int64(1 + r.Intn(3))
 	nb := int64(1 + r.Intn(4))
+	// a third of the cases use both front-ends: connections k and 100+k get the same connection id
+	twoFronts := r.Intn(3) == 0
+	pickSid := func() int64 {
+		sid := 1 + r.Int63n(nsid)
+		if twoFronts && r.Intn(2) == 0 {
+			sid += 100
+		}
+		return sid
+	}
 	n := 4 + r.Intn(20)
 	if i%8 == 7 {
 		n = 30 + r.Intn(50)
@@ -127,9 +159,74 @@ func gen(cfg *hx.Config, i int) ([]hx.T, []string) {
 	}
 	var ops []hx.T
 	ops = append(ops, hx.C("OConnect", 1))
+	if twoFronts {
+		tags["two-fronts"] = true
+		ops = append(ops, hx.C("OConnect", 101))
+	}
+	if r.Intn(4) == 0 {
+		// the case's first session comes from a forwarded notification
+		tags["forward-keep-notify"] = true
+		ops = append(ops, hx.C("OForwardKeepN", ops[len(ops)-1].Int(0), 1+r.Int63n(nb)))
+	}
+	// most operations address connections that are (probably) connected and handles that (probably)
+	// exist - the rest exercises the ignored / dead paths
+	live := map[int64]bool{}
+	made := map[int64]int64{} // handle -> connection it was made for
+	pickIn := func(m map[int64]bool) (int64, bool) {
+		var ks []int64
+		for k, on := range m {
+			if on {
+				ks = append(ks, k)
+			}
+		}
+		if len(ks) == 0 {
+			return 0, false
+		}
+		sort.Slice(ks, func(i, j int) bool { return ks[i] < ks[j] })
+		return ks[r.Intn(len(ks))], true
+	}
+	note := func(o hx.T) {
+		switch o.Name {
+		case "OConnect":
+			live[o.Int(0)] = true
+		case "ORemove":
+			live[o.Int(0)] = false
+		case "OBackNew":
+			if _, ok := made[o.Int(0)]; !ok {
+				made[o.Int(0)] = o.Int(1)
+			}
+		case "OForwardKeep", "OForwardKeepN":
+			if _, ok := made[o.Int(1)]; !ok && live[o.Int(0)] {
+				made[o.Int(1)] = o.Int(0)
+			}
+		case "OBackScript":
+			for _, a := range o.List(1) {
+				if s, ok := a.(string); ok && s == "AKick" {
+					live[made[o.Int(0)]] = false
+				}
+			}
+		}
+	}
+	for _, o := range ops {
+		note(o)
+	}
 	for len(ops) < n {
-		sid := 1 + r.Int63n(nsid)
+		if len(ops) > 0 {
+			note(ops[len(ops)-1])
+		}
+		sid := pickSid()
+		if k, ok := pickIn(live); ok && r.Intn(5) != 0 {
+			sid = k
+		}
 		b := 1 + r.Int63n(nb)
+		useB := b // for operations that use a handle: mostly one that exists
+		if len(made) > 0 && r.Intn(6) != 0 {
+			hs := map[int64]bool{}
+			for h := range made {
+				hs[h] = true
+			}
+			useB, _ = pickIn(hs)
+		}
 		switch p := r.Intn(100); {
 		case p < 8:
 			ops = append(ops, hx.C("OConnect", sid))
@@ -146,10 +243,16 @@ func gen(cfg *hx.Config, i int) ([]hx.T, []string) {
 		case p < 38:
 			tags["forward"] = true
 			ops = append(ops, hx.C("OForward", sid))
-		case p < 41:
-			// a handler that answers first and keeps its session: later ops use it as handle b
-			tags["forward-keep"] = true
-			ops = append(ops, hx.C("OForwardKeep", sid, b))
+		case p < 43:
+			// a handler that answers first (or was notified: nothing to answer) and keeps its session:
+			// later ops use it as handle b
+			if r.Intn(2) == 0 {
+				tags["forward-keep"] = true
+				ops = append(ops, hx.C("OForwardKeep", sid, b))
+			} else {
+				tags["forward-keep-notify"] = true
+				ops = append(ops, hx.C("OForwardKeepN", sid, b))
+			}
 		case p < 50:
 			s2 := sid
 			if r.Intn(10) == 0 {
@@ -159,17 +262,17 @@ func gen(cfg *hx.Config, i int) ([]hx.T, []string) {
 			ops = append(ops, hx.C("OBackNew", b, s2))
 		case p < 68:
 			k, v := kv()
-			ops = append(ops, hx.C("OBackSet", b, k, v))
+			ops = append(ops, hx.C("OBackSet", useB, k, v))
 		case p < 73:
-			ops = append(ops, hx.C("OBackGet", b, int64(r.Intn(7))))
+			ops = append(ops, hx.C("OBackGet", useB, int64(r.Intn(7))))
 		case p < 79:
-			ops = append(ops, hx.C("OBackDump", b))
+			ops = append(ops, hx.C("OBackDump", useB))
 		case p < 89:
 			tags["push"] = true
-			ops = append(ops, hx.C("OBackPush", b))
+			ops = append(ops, hx.C("OBackPush", useB))
 		case p < 96:
 			tags["query"] = true
-			ops = append(ops, hx.C("OBackQuery", b))
+			ops = append(ops, hx.C("OBackQuery", useB))
 		default:
 			// pipelined script on one back-session: sets / pushes / queries without awaiting
 			tags["script"] = true
@@ -191,7 +294,7 @@ func gen(cfg *hx.Config, i int) ([]hx.T, []string) {
 					acts = append(acts, "AKick")
 				}
 			}
-			ops = append(ops, hx.C("OBackScript", b, acts))
+			ops = append(ops, hx.C("OBackScript", useB, acts))
 		}
 	}
 	var tl []string
